@@ -8,6 +8,8 @@ package db
 
 //@ func Checkpointer._calculateSafeExpectedSeqsIdx
 //@   safety on
+// (C20: the order used to compute checkpoints is the token order Before, i.e. the order of a changes listing)
+//@   also C20: sorted
 //@   requires c != nil
 //@   modifies elems(c.expectedSeqs)
 //@   ensures[header]  c.expectedSeqs == old(c.expectedSeqs)
